@@ -213,10 +213,15 @@ func factsAt(b *ssa.BasicBlock) []edgeFact {
 	return out
 }
 
-// expandFacts decomposes facts through boolean negation (UnOp !).
+// expandFacts decomposes facts through boolean negation (UnOp !) and through
+// the phis go/ssa builds for && and || in value position (switch cases):
+// a true && chain means every conjunct is true, a false || chain that every
+// disjunct is false.
 func expandFacts(fs []edgeFact) []edgeFact {
 	var out []edgeFact
-	for _, f := range fs {
+	seen := map[edgeFact]bool{}
+	var add func(f edgeFact, depth int)
+	add = func(f edgeFact, depth int) {
 		for {
 			u, ok := f.Cond.(*ssa.UnOp)
 			if ok && u.Op == token.NOT {
@@ -225,7 +230,36 @@ func expandFacts(fs []edgeFact) []edgeFact {
 			}
 			break
 		}
+		if seen[f] || depth > 8 {
+			return
+		}
+		seen[f] = true
 		out = append(out, f)
+		phi, ok := f.Cond.(*ssa.Phi)
+		if !ok {
+			return
+		}
+		// edges that are the constant !Truth cannot have been taken
+		var live []int
+		for i, e := range phi.Edges {
+			if cb, isC := constBool(e); isC && cb != f.Truth {
+				continue
+			}
+			live = append(live, i)
+		}
+		if len(live) != 1 {
+			return
+		}
+		i := live[0]
+		pred := phi.Block().Preds[i]
+		add(edgeFact{Cond: phi.Edges[i], Truth: f.Truth, From: f.From}, depth+1)
+		// the predecessor was reached: what holds on every path into it
+		for _, pf := range factsAt(pred) {
+			add(edgeFact{Cond: pf.Cond, Truth: pf.Truth, From: f.From}, depth+1)
+		}
+	}
+	for _, f := range fs {
+		add(f, 0)
 	}
 	return out
 }
